@@ -10,6 +10,7 @@ import (
 	"go/token"
 	"os"
 	"path/filepath"
+	"reflect"
 	"runtime"
 	"sort"
 	"strings"
@@ -347,6 +348,38 @@ func checkCall(cc callCase) error {
 			}
 		}
 	}
+	// a re-entrant callback: the callback of g.XFunc also emits into the enclosing group g. The
+	// callback runs inside the constructing call, i.e. before the new statement is appended, so
+	// what it emits comes first — exactly as with g.Add(XFunc(cb)).
+	if recipe.HasFunc(fn) && fn != "Lit" && fn != "LitRune" && fn != "LitByte" {
+		var viaGroup, viaAdd jen.Code
+		if perr := hx.Safe(func() error {
+			b9, b10 := &recipe.Builder{}, &recipe.Builder{}
+			viaGroup = jen.CustomFunc(jen.Options{Open: "<", Close: ">", Separator: ";"}, func(g *jen.Group) {
+				g.Id("before")
+				inner := *c
+				m, _ := reflect.TypeOf(g).MethodByName(fn + "Func")
+				_ = m
+				callGroupFuncReentrant(b9, g, fn, &inner)
+				g.Id("after")
+			})
+			viaAdd = jen.CustomFunc(jen.Options{Open: "<", Close: ">", Separator: ";"}, func(g *jen.Group) {
+				g.Id("before")
+				inner := *c
+				st := callFuncReentrant(b10, g, fn, &inner)
+				g.Add(st)
+				g.Id("after")
+			})
+			return nil
+		}); perr != nil {
+			return fmt.Errorf("%sFunc with a re-entrant callback: %v", fn, perr)
+		}
+		o1, e1 := renderCode(viaGroup)
+		o2, e2 := renderCode(viaAdd)
+		if (e1 == nil) != (e2 == nil) || o1 != o2 {
+			return fmt.Errorf("%sFunc: a callback that also emits into the enclosing group: g.%sFunc(cb) renders %q, g.Add(%sFunc(cb)) renders %q", fn, fn, o1, fn, o2)
+		}
+	}
 	// the returned statement IS the appended one: a token added to it shows in the group
 	ret.Id("zz")
 	wantRet.(*jen.Statement).Id("zz")
@@ -481,7 +514,7 @@ func TestC14(t *testing.T) {
 				}
 				dec.Draw = nil
 				c := progCase{Name: f, Src: recipe.Text(src), Forms: dec}
-				if hx.Safe(func() error { return checkProg(c) }) != nil {
+				if r.Violations() < 2 && hx.Safe(func() error { return checkProg(c) }) != nil {
 					c.Src = recipe.Text(shrink.Source(src, func(bs []byte) bool {
 						return hx.Safe(func() error { return checkProg(progCase{Name: c.Name, Src: recipe.Text(bs), Forms: c.Forms}) }) != nil
 					}, 15*time.Second))
@@ -495,4 +528,37 @@ func TestC14(t *testing.T) {
 		}
 		wg.Wait()
 	}
+}
+
+// callGroupFuncReentrant calls g.<fn>Func with a callback that first emits a marker into the
+// enclosing group g and then adds the items to its own group.
+func callGroupFuncReentrant(b *recipe.Builder, g *jen.Group, fn string, c *recipe.Call) *jen.Statement {
+	m := reflect.ValueOf(g).MethodByName(fn + "Func")
+	return callReentrant(b, m, g, c)
+}
+
+func callFuncReentrant(b *recipe.Builder, g *jen.Group, fn string, c *recipe.Call) *jen.Statement {
+	return callReentrant(b, reflect.ValueOf(recipe.Funcs[fn+"Func"]), g, c)
+}
+
+func callReentrant(b *recipe.Builder, f reflect.Value, outer *jen.Group, c *recipe.Call) *jen.Statement {
+	var args []reflect.Value
+	t := f.Type()
+	for i := 0; i < t.NumIn(); i++ {
+		if t.In(i) == reflect.TypeOf(jen.Options{}) {
+			o := jen.Options{}
+			if c.Opts != nil {
+				o = jen.Options{Open: string(c.Opts.Open), Close: string(c.Opts.Close), Separator: string(c.Opts.Separator), Multi: c.Opts.Multi}
+			}
+			args = append(args, reflect.ValueOf(o))
+			continue
+		}
+		args = append(args, reflect.ValueOf(func(inner *jen.Group) {
+			outer.Id("fromcallback")
+			for _, it := range c.Items {
+				inner.Add(b.Code(it))
+			}
+		}))
+	}
+	return f.Call(args)[0].Interface().(*jen.Statement)
 }
